@@ -41,6 +41,8 @@ Node = _Ty('Node')
 ListNode = _Ty('ListNode')
 MapStr = _Ty('MapStr')
 DictStrObj = _Ty('DictStrObj')
+DictStrStr = _Ty('DictStrStr')
+Callback = _Ty('Callback')
 
 REGISTRY = {'contracts': {}, 'loops': {}, 'specs': {}, 'lemmas': {}, 'fields': {}, 'opaques': {}, 'inlines': set(),
             'externs': {}}
